@@ -128,27 +128,73 @@ def explore(prog, harness, cases, nproc=None, fuel=5_000_000, max_paths=200000, 
             pending.extend((c, q) for q in left)
         return records, leftover
     ctxm = mp.get_context('fork')
-    with ctxm.Pool(nproc, initializer=_init_worker) as pool:
-        inflight = []
+    from concurrent.futures import ProcessPoolExecutor
+    from concurrent.futures.process import BrokenProcessPool
+
+    def isolated(arg):
+        """run one batch in a process of its own: a worker that dies (native stack overflow, OOM kill) is reported as an engine
+        error for exactly that work item instead of taking the pool down"""
+        parent, child = ctxm.Pipe(False)
+
+        def run(conn, a):
+            _init_worker()
+            conn.send(_worker_task(a))
+            conn.close()
+        pr = ctxm.Process(target=run, args=(child, arg))
+        pr.start()
+        child.close()
+        try:
+            res = parent.recv()
+        except EOFError:
+            res = None
+        pr.join()
+        if res is None:
+            c, pfx = arg[0], arg[1]
+            return c, [{'case': c, 'prefix_len': len(pfx), 'outcome': 'engine_error', 'detail': 'worker process died (exit code %s)' % pr.exitcode,
+                        'where': '', 'steps': 0, 'queries': 0, 'solver_s': 0.0, 'wall_s': 0.0, 'decisions': list(pfx)}], []
+        return res
+
+    pool = ProcessPoolExecutor(nproc, mp_context=ctxm, initializer=_init_worker)
+    try:
+        inflight = []      # (future, arg)
         while pending or inflight:
             stop = (deadline_s and time.time() - t0 > deadline_s) or len(records) >= max_paths
             while pending and len(inflight) < nproc * 2 and not stop:
                 c, p = pending.pop()
-                inflight.append(pool.apply_async(_worker_task, ((c, p, fuel, batch_paths, batch_secs),)))
+                arg = (c, p, fuel, batch_paths, batch_secs)
+                inflight.append((pool.submit(_worker_task, arg), arg))
             if stop and not inflight:
                 leftover = len(pending)
                 break
-            done = [r for r in inflight if r.ready()]
+            done = [x for x in inflight if x[0].done()]
             if not done:
                 time.sleep(0.01)
                 continue
-            for r in done:
-                inflight.remove(r)
-                c, out, left = r.get()
+            broken = False
+            for x in done:
+                inflight.remove(x)
+                try:
+                    c, out, left = x[0].result()
+                except BrokenProcessPool:
+                    broken = True
+                    inflight.append(x)
+                    continue
                 records.extend(out)
                 pending.extend((c, q) for q in left)
+            if broken:
+                # a worker died: every in-flight item is lost. Re-run each of them in isolation, then go on with a new pool.
+                lost = [x[1] for x in inflight]
+                inflight = []
+                pool.shutdown(wait=False, cancel_futures=True)
+                for arg in lost:
+                    c, out, left = isolated(arg)
+                    records.extend(out)
+                    pending.extend((c, q) for q in left)
+                pool = ProcessPoolExecutor(nproc, mp_context=ctxm, initializer=_init_worker)
             if progress:
                 progress(len(records), len(pending) + len(inflight))
+    finally:
+        pool.shutdown(wait=False, cancel_futures=True)
     return records, leftover
 
 
